@@ -51,6 +51,7 @@ def d1(ctx, F):
     for im in sorted(impls, key=lambda i: i["self"]):
         b = F.body(im["items"]["compress"])
         ctx.touch(b)
+        b = F.inlined(b)          # private helper types / functions around the third-party encoder are looked through
         name = im["self"].rsplit("::", 1)[-1]
         oks = ok_payload_locals(b)
         if not ctx.check(bool(oks), "C14.D1.terminal-op", "compress:%s:no-ok" % name, "%s::compress has an Ok return" % name, b.span):
@@ -93,9 +94,9 @@ def d2(ctx, F):
         return m.group(1) if m else s
     pairs = {}
     for s, i in cimpls.items():
-        pairs.setdefault(algo(s), {})["c"] = F.body(i["items"]["compress"])
+        pairs.setdefault(algo(s), {})["c"] = F.inlined(F.body(i["items"]["compress"]))
     for s, i in dimpls.items():
-        pairs.setdefault(algo(s), {})["d"] = F.body(i["items"]["decompress"])
+        pairs.setdefault(algo(s), {})["d"] = F.inlined(F.body(i["items"]["decompress"]))
     for a, p in sorted(pairs.items()):
         if not ctx.check("c" in p and "d" in p, "C14.D2.paired", "pair-missing:%s" % a, "algorithm %s has both a compressor and a decompressor" % a):
             continue
